@@ -88,10 +88,12 @@ def pred(arg, out):
     best_w = max(a[2] for a in answers if a[3] == best_pr)
     if (pr, w) != (best_pr, best_w):
         return f"picked priority {pr} weight {w}; best is priority {best_pr} weight {best_w}"
-    if not any(a[0].rstrip(".") == t and a[1] == p and a[2] == w and a[3] == pr for a in answers):  # exact, case included
+    def stripped(name):
+        # "the trailing dot removed": for a target with several trailing dots both readings are accepted (one dot, or all of them)
+        return {name.rstrip(".")} | ({name[:-1]} if name.endswith(".") else {name})
+
+    if not any(t in stripped(a[0]) and a[1] == p and a[2] == w and a[3] == pr for a in answers):  # exact, case included
         return "picked record is not one of the answers with its trailing dot removed"
-    if t.endswith("."):
-        return "trailing dot not removed"
     return None
 
 
